@@ -68,6 +68,9 @@ func c19Tree(seed uint64, name string) *lib.Build {
 		b.PutFile("b/empty", nil)
 		b.PutDir("e")
 		b.PutSymlink("s", "a.bin")
+		b.PutSymlink("s-odd", "./b/../a.bin")
+		b.PutFile("notes..txt", rb(33)) // names that merely CONTAIN two dots
+		b.PutFile("release-1..2/...and-more", rb(44))
 		for i := 0; i < 12; i++ {
 			b.PutFile(fmt.Sprintf("b/f%02d", i), rb(r.Intn(3000)))
 		}
@@ -89,6 +92,12 @@ func c19Tree(seed uint64, name string) *lib.Build {
 		b.PutSymlink("lnk-file", "top.bin")
 		b.PutSymlink("a/lnk-dir", "b")
 		b.PutSymlink("dangling", "no/where")
+		// destinations that are legal but not in their shortest form: stored and restored verbatim
+		b.PutSymlink("lnk-odd-dot", "./top.bin")
+		b.PutSymlink("lnk-odd-slash", "a//b")
+		b.PutSymlink("a/lnk-odd-dotdot", "b/../empty.bin")
+		b.PutSymlink("lnk-odd-trailing", "hollow/")
+		b.PutSymlink("lnk-odd-mid", "a/./b/x.bin")
 		for i := 0; i < 40; i++ {
 			b.PutFile(fmt.Sprintf("a/b/n%02d.bin", i), rb(r.Intn(9000)))
 		}
